@@ -173,6 +173,7 @@ M("C09", "c09_m_tx_roundtrip", ["Transaction::serialize_for_net_with_hop", "Tran
   "shapes inputs/outputs/hops in {1/1/0, 2/1/1, 0/2/0, 1/0/1} (thorough: all of 0..=2 each), payload of 0..=6 symbolic bytes, every field of every element symbolic; decode must be Ok and equal fieldwise", covers=4)
 M("C09", "c09_m_block_header_roundtrip", ["Block::serialize_for_net(Header)", "Block::deserialize_from_net"], "every value of the 31 header fields on the wire (389 bytes); decode must be Ok and equal fieldwise; native replay", covers=1)
 M("C09", "c09_m_message_tag_agreement", ["Message::deserialize", "Message::get_type_value"], "every buffer of length 0..=200, every tag byte: a decoded message is of the variant whose type value is the first byte", covers=1)
+M("C09", "c09_m_message_roundtrip", ["Message::serialize", "Message::deserialize"], "BlockHeaderHash, GhostChainRequest, Ping, SPVChain with every value of their fields; fieldwise equality after the round trip", covers=1)
 M("C09", "c09_lite_header_copy", ["Block::generate_lite_block", "Block::generate_merkle_root", "Block::new"], "same as c18_lite_header_copy: 32 header fields of a block without in-memory transactions", covers=1)
 M("C09", "c09_m_tx_size_prediction", ["Transaction::get_serialized_size", "Transaction::serialize_for_net_with_hop", "Slip::serialize_for_net", "Hop::serialize_for_net"], "0..=2 inputs x 0..=1 outputs x 0..=2 hops (thorough 2/2/3), payload length symbolic below 2^32, all field values symbolic", covers=10)
 M("C09", "c09_m_tx_counts_agree", ["Transaction::deserialize_from_net (header section)", "Transaction::serialize_for_net_with_hop (accepted counts: <=255 inputs/outputs)"],
@@ -204,6 +205,7 @@ M("C01", "c01_generate_commits_every_atr", ["saito_core::core::consensus::block:
 M("C01", "c01_unwind_full_before_revert", ["Blockchain::unwind_chain (async body)", "Blockchain::wind_chain"], "same as c03_unwind_full_before_revert: event order on every path, |new| 1..=2, |old| 0..=1", covers=2)
 M("C01", "c01_ledger_check_switch", ["Blockchain::has_total_supply_loaded", "Blockchain::wind_chain (async body)"], "tip height, genesis period symbolic u64, index content an arbitrary predicate over heights (uninterpreted function); wind_chain: every path of one step on a 2+1 segment", covers=2)
 M("C01", "c01_tx_signature_gate", ["Transaction::validate"], "types Normal / GoldenTicket / Vip / Bound, 1 input x 1..=2 outputs, hash, signature, owner key symbolic; verify_signature verdict free, argument identity checked", covers=1)
+M("C01", "c01_stake_input_must_exist", ["Blockchain::is_slip_unlocked"], "every 59-byte key; decoded slip of any type / height; ledger answer (absent / present-unspendable / present-spendable) symbolic", covers=1)
 M("C02", "c02_generate_commits_every_atr", ["saito_core::core::consensus::block::Block::generate (second sweep)"], "same as c13_generate_commits_every_atr: the ATR type, exempt from the no-mint comparison, cannot bypass the commitment", covers=2)
 M("C02", "c02_block_double_spend", ["Block::validate (the per-transaction closure: double-spend scan)"], "same as c01_block_double_spend: 1..=3 inputs, one recorded key", covers=3)
 M("C13", "c13_pruned_block_selection", ["Block::generate_consensus_values (async body, up to the point where the block leaving the window is loaded)"], "block id and genesis period symbolic; parent block not indexed (its arithmetic is independent and skipped)", covers=1)
@@ -272,6 +274,7 @@ M("C07", "c07_header_agreement", ["Block::create (async body, up to the end of t
 M("C07", "c07_producer_work_gate", ["Mempool::can_bundle_block (async body)"], "all paths of the body; latest block present/absent, ticket supplied or not, routing work / timestamps / burn fee symbolic u64; BurnFee and the golden-ticket count rule uninterpreted (argument roles checked)", covers=1)
 M("C07", "c07_pool_work_counter_exact", ["Mempool::delete_transactions", "Blockchain::remove_block_transactions"], "pool of two transactions with symbolic work and signatures, stale counter arbitrary, confirmed transaction arbitrary; call order on every path of remove_block_transactions", covers=2)
 
+M("C07", "c07_validator_work_gate", ["Block::validate (async body)"], "same as c08_block_work_gate: all ~1500 paths of Block::validate, argument roles of the requirement computation", covers=1)
 # ============================================================================== C18
 PROPERTY_ASSUMPTIONS["C18"] = [
     "engine M over the per-transaction projection step of Block::generate_lite_block (the closure mapped over the block's transactions); slice::contains is membership, slice::binary_search is specified only for sorted slices (arbitrary otherwise)",
@@ -295,6 +298,7 @@ M("C14", "c14_delete_recomputes_work", ["Mempool::delete_transactions", "Blockch
 M("C14", "c14_bundle_releases_reservations", ["Mempool::bundle_block (async body)"], "the created block a symbolic input: two transactions of symbolic type with one reserved input each; staking transaction / can_bundle / generate answers favourable", covers=1)
 M("C14", "c14_delete_keeps_pooled_reserved", ["Mempool::delete_transactions"], "pool with one transaction (Inv), block carrying a different transaction whose input may or may not be the same output; signatures, keys, type symbolic", covers=1)
 M("C14", "c14_hand_back_only_own_blocks", ["Blockchain::add_block_transactions_back (async body)"], "every path; creator key, wallet key, routed_from_peer symbolic", covers=1)
+M("C14", "c14_tick_admits_through_validation", ["ConsensusThread::bundle_block (async body, the admission loop)"], "one waiting transaction of any non-golden-ticket type; explored up to the golden-ticket look-up after the loop", covers=1)
 M("C14", "c14_delete_releases_reservations", ["Mempool::delete_transactions"], "pool holding one transaction with one input; the block confirms that transaction")
 
 # ============================================================================== C02
